@@ -859,6 +859,31 @@ impl<'a> QGen<'a> {
             let want = Ty::Int;
             let op = *r.pick(&[SetOp::Union, SetOp::Intersect, SetOp::Except]);
             let all = r.chance(1, 2);
+            if r.chance(1, 4) {
+                // both branches compute the SAME aggregate (identical text) over different row sets of
+                // one table: one statement, several aggregation blocks
+                let t = r.below(self.db.tables.len() as u64) as usize;
+                let ints = self.db.tables[t].schema.cols_of(Ty::Int);
+                let f = *r.pick(&[AggFn::CountStar, AggFn::Count, AggFn::Sum, AggFn::Min, AggFn::Max]);
+                let agg = AggCall { f, arg: E::Col(*r.pick(&ints)), distinct: f != AggFn::CountStar && r.chance(1, 4) };
+                let fg = QGen { db: self.db, subqueries: false, force_from: Some(From::Table(t)) };
+                let branch = |r: &mut Rng| -> Query {
+                    let where_ = if r.chance(4, 5) { Some(fg.gen_pred(r, &From::Table(t), 1)) } else { None };
+                    Query::Core(Core {
+                        from: From::Table(t),
+                        where_,
+                        group: Some(Group { keys: vec![], aggs: vec![agg.clone()], having: None }),
+                        select: vec![E::Col(0)],
+                        distinct: false,
+                        order_by: vec![],
+                        limit: None,
+                        offset: 0,
+                    })
+                };
+                let (l, rr) = (branch(r), branch(r));
+                let two = Query::SetOp(op, all, Box::new(l), Box::new(rr));
+                return if r.chance(1, 3) { Query::SetOp(SetOp::Union, true, Box::new(two), Box::new(branch(r))) } else { two };
+            }
             let l = Query::Core(mk(r, want));
             let rr = Query::Core(mk(r, want));
             if r.chance(1, 4) {
